@@ -213,6 +213,18 @@ def prop_c20edw(cname, k1, k2, stride, offset):
         return None if P == _INF else (int(P.x()), int(P.y()))
     opA = lambda P: aff(P * k1)
     b_ops = [lambda P: aff(P * k2), lambda P: aff(P.double()), lambda P: aff(P * (k2 + 1))]
+    if stride < 0:
+        # second scenario: a shared PUBLIC point (k2*G, extended coordinates with Z != 1) that is rescaled in place by
+        # to_bytes() / scale() / the accessors, preempted at every source line
+        stride = -stride
+        gen0 = fresh()
+
+        def fresh():                                     # noqa: F811 - a new unshared point with the same coordinates each time
+            q = gen0 * k2
+            x, y, z, t = q._PointEdwards__coords
+            return _ec.PointEdwards(g0.curve(), int(x), int(y), int(z), int(t), int(g0.order()))
+        opA = lambda P: (bytes(P.to_bytes()), aff(P))
+        b_ops = [lambda P: bytes(P.to_bytes()), lambda P: aff(P.scale()), lambda P: (int(P.x()), int(P.y())), lambda P: aff(P * 3)]
     want_a = opA(fresh())
     want_b = [ob(fresh()) for ob in b_ops]
     count = [0]
